@@ -279,6 +279,32 @@ def run(tape, scenario):
                 e = t.exception()
                 outcome.append(f"{type(e).__name__}: {e}")
         await asyncio.sleep(0.01)
+        if not outcome and not violations and tape.chance("c30/second-session", 35):
+            # the same groups and devices started again after they were stopped: start()
+            # makes a fresh frame buffer, the outputs begin at zero again
+            world.count("c30/groups-started-a-second-time")
+            wf.loss = 0
+            started[0] = False       # no faults while the groups are being configured
+            for g in groups:
+                g.first_session = len(g.cycles)
+                g.cycles, g.snapshots, g.finishing = [], {}, False
+                g.ncycles = 4 + tape.draw("c30/cycles-2", 10)
+                for t in g.rw:
+                    model[t][:] = bytes(len(model[t]))
+            tasks = []
+            for g in groups:
+                tasks.append(g.sg.start())
+                if two:
+                    await asyncio.sleep([0, 2e-3, 7e-3][tape.draw("c30/stagger", 3)])
+            done, pending = await asyncio.wait(tasks, timeout=4.0)
+            for t in tasks:
+                if t in pending:
+                    outcome.append("timeout (second session)")
+                    t.cancel()
+                elif not t.cancelled() and t.exception() is not None:
+                    e = t.exception()
+                    outcome.append(f"{type(e).__name__}: {e} (second session)")
+            await asyncio.sleep(0.01)
 
     with env:
         try:
